@@ -65,11 +65,12 @@ RULE = ("masks: line / 2-D random / sparse / nearly empty / full, 6..40 rows and
         "case description")
 
 # findings of this check on the current tree that the lead has not yet ruled on (still reported as VIOLATION)
-PENDING_FINDINGS: list[str] = []
+PENDING_FINDINGS: list[str] = ["ssl-split-mask-rank-3d"]
 
 HARNESS = pathlib.Path(__file__).resolve().parent.parent
 WATCHDOG_S = 20.0
-STREAM_CAP = 6000
+STREAM_CAP = 50_000_000     # raw candidates replayed per case (C helper); the model sees their first occurrences
+PY_STREAM_CAP = 200_000
 DIRS = ["horizontal", "vertical", "diagonal_left", "diagonal_right"]
 RATIOS = [(1, 20), (19, 20), (1, 2), (3, 10), (9, 10), (2, 5), (3, 4), (1, 3), (7, 10), (1, 4), (1, 10), (4, 5)]
 
@@ -197,21 +198,177 @@ def _worker_main():  # pragma: no cover - runs in the subprocess
             res["ink"], res["tgk"] = fk(ik), fk(tk)
             res["k_integral"] = bool((ik == ik.round()).all() and (tk == tk.round()).all())
         if case["kind"] == "half" and case["dir"].startswith("diagonal"):
-            xv, yv = torch.meshgrid(torch.linspace(-1, 1, H), torch.linspace(-1, 1, W), indexing="ij")
-            fl = ((xv + yv) if case["dir"] == "diagonal_right" else (xv - yv)) <= 0
-            sgn = 1 if case["dir"] == "diagonal_right" else -1
-            ex = [[(_coord(H, i) + sgn * _coord(W, j)) <= 0 for j in range(W)] for i in range(H)]
-            res["diag_exact"] = bool(fl.tolist() == ex)
+            # the float32 coordinates the code compares (dyadic rationals, carried exactly to the model)
+            res["xs"] = [list(float(v).as_integer_ratio()) for v in torch.linspace(-1, 1, H).tolist()]
+            res["ys"] = [list(float(v).as_integer_ratio()) for v in torch.linspace(-1, 1, W).tolist()]
         st1 = sp.rng.get_state()
         res["rng_restored"] = bool(st0[0] == st1[0] and (st0[1] == st1[1]).all() and st0[2:] == st1[2:])
         res["calls"] = [dict(c) for c in calls]
         res["log"] = list(RecRS.log)
         return res
 
+    # ---- the SSL branch as build_mri_transforms builds it, batch collation, the SSL engines' training step
+    _toy = {}
+
+    def toy_engine(which):
+        if which not in _toy:
+            from omegaconf import OmegaConf
+
+            from direct.config.defaults import DefaultConfig
+            from direct.data.transforms import fft2, ifft2
+            from direct.nn.ssl.mri_models import JSSLMRIModelEngine, SSLMRIModelEngine
+
+            base = SSLMRIModelEngine if which == "ssl" else JSSLMRIModelEngine
+
+            class Net(torch.nn.Module):
+                def __init__(self):
+                    super().__init__()
+                    self.w = torch.nn.Parameter(torch.zeros(1))
+
+            class Toy(base):
+                def forward_function(self, data):
+                    return None, data["_pred"] + self.model.w * 0
+
+            eng = Toy(OmegaConf.structured(DefaultConfig), Net(), "cpu", forward_operator=fft2, backward_operator=ifft2)
+            eng.ndim = 2
+            _toy[which] = eng
+        return _toy[which]
+
+    def skey(k):
+        return str(k.value) if hasattr(k, "value") else str(k)
+
+    def ssl_tail(case):
+        from direct.data.mri_transforms import TransformsType, build_mri_transforms
+        from direct.data.transforms import fft2, ifft2
+
+        kind = case["kind"]
+        ratios = [p / q for p, q in case["ratios"]]
+        comp = build_mri_transforms(
+            forward_operator=fft2, backward_operator=ifft2, mask_func=None, transforms_type=TransformsType.SSL_SSDU,
+            use_seed=bool(case["use_seed"]), mask_split_ratio=ratios if len(ratios) > 1 else ratios[0],
+            mask_split_acs_region=tuple(case["a"]), mask_split_keep_acs=bool(case["keep"]),
+            mask_split_type=S.MaskSplitterType(kind if kind != "gauss" else "gaussian"),
+            mask_split_half_direction=S.HalfSplitType(case.get("dir", "vertical")))
+        idx = [i for i, t in enumerate(comp.transforms) if isinstance(getattr(t, "_transform", t), S.MaskSplitter)]
+        if len(idx) != 1:
+            raise RuntimeError(f"pipeline has {len(idx)} splitter stages")
+        start = idx[0]
+        if start > 0 and type(getattr(comp.transforms[start - 1], "_transform", comp.transforms[start - 1])).__name__ == "AddBooleanKeysModule":
+            start -= 1          # the `is_ssl` flag is set just before the splitter
+        return comp.transforms[start:]
+
+    def run_engine(case):
+        from torch.utils.data.dataloader import default_collate
+
+        H, W, B, C, Sl = case["nrow"], case["ncol"], case["B"], case["C"], case.get("S", 1)
+        three = case["dims"] == 3
+        mshape = (1, 1, H, W, 1) if three else (1, H, W, 1)
+        kshape = (C, Sl, H, W, 2) if three else (C, H, W, 2)
+        tail = ssl_tail(case)
+        outs, res = [], {"stages": [type(getattr(t, "_transform", t)).__name__ for t in tail]}
+        for b in range(B):
+            m = torch.tensor(case["masks"][b], dtype=torch.bool).reshape(mshape)
+            k = torch.tensor(case["kspace"][b], dtype=torch.float32).reshape(kshape)
+            sens = torch.zeros(kshape)
+            sens[..., 0] = 1.0
+            sample = {"kspace": k.clone(), "masked_kspace": torch.where(m, k, torch.zeros(1)), "sampling_mask": m.clone(),
+                      "sensitivity_map": sens, "filename": case["filename"][b], "slice_no": case["slice_no"][b],
+                      "scaling_factor": torch.tensor(1.0)}
+            if case["acs"]:
+                sample["acs_mask"] = torch.tensor(case["acs"][b], dtype=torch.bool).reshape(mshape)
+            for t in tail:
+                sample = t(sample)
+            outs.append({skey(k_): v for k_, v in sample.items()})
+        o0 = outs[0]
+        res["keys"] = sorted(o0.keys())
+        res["is_ssl"] = bool(o0.get("is_ssl"))
+        res["mask_shape"] = [list(o0["input_sampling_mask"].shape), list(o0["target_sampling_mask"].shape)]
+        res["orig_mask_shape"] = list(mshape)
+        res["k_shape"] = [list(o0["input_kspace"].shape), list(o0["kspace"].shape)]
+        fl = lambda x: [int(v) for v in x.reshape(-1).tolist()]  # noqa: E731
+        res["input"] = [fl(o["input_sampling_mask"]) for o in outs]
+        res["target"] = [fl(o["target_sampling_mask"]) for o in outs]
+        res["ink"] = [fl(o["input_kspace"]) for o in outs]
+        res["tgk"] = [fl(o["kspace"]) for o in outs]
+        res["target_img_ok"] = bool(all(torch.isfinite(o["target"]).all() for o in outs))
+        # collate + one training step of the engine with a recording k-space loss
+        try:
+            batch = default_collate(outs)
+            batch["_pred"] = torch.stack([torch.tensor(p, dtype=torch.float32).reshape(kshape) for p in case["pred"]])
+            eng = toy_engine(case["engine"])
+            eng.model.train()
+            rec = []
+
+            def loss(out, tgt, reduction="mean", recon=None):
+                rec.append((out.detach().clone(), tgt.detach().clone()))
+                return (out * 0).sum()
+
+            eng._do_iteration(batch, loss_fns={"kspace_rec": loss})
+            if len(rec) != 1:
+                raise RuntimeError(f"k-space loss called {len(rec)} times")
+            res["collated_mask_shape"] = list(batch["input_sampling_mask"].shape)
+            res["collated_k_shape"] = list(batch["input_kspace"].shape)
+            res["loss_shape"] = [list(rec[0][0].shape), list(rec[0][1].shape)]
+            res["loss_out"] = [fl(rec[0][0][b]) for b in range(rec[0][0].shape[0])]
+            res["loss_ref"] = [fl(rec[0][1][b]) for b in range(rec[0][1].shape[0])]
+            res["engine_ok"] = True
+        except Exception as e:  # noqa: BLE001
+            res["engine_ok"] = False
+            res["engine_err"] = f"{type(e).__name__}: {e}"[:300]
+        return res
+
+    def run_fullpipe(case):
+        """supervised and SSL branches of the real build_mri_transforms on the same raw sample"""
+        from direct.common.subsample import FastMRIRandomMaskFunc
+        from direct.data.mri_transforms import TransformsType, build_mri_transforms
+        from direct.data.transforms import fft2, ifft2, root_sum_of_squares
+
+        kind = case["kind"]
+        H, W, C, Sl = case["nrow"], case["ncol"], case["C"], case.get("S", 1)
+        shape = (C, Sl, H, W) if case["dims"] == 3 else (C, H, W)
+        ratios = [p / q for p, q in case["ratios"]]
+
+        def run(tt):
+            mf = FastMRIRandomMaskFunc(accelerations=[2], center_fractions=[0.25])
+            tr = build_mri_transforms(
+                forward_operator=fft2, backward_operator=ifft2, mask_func=mf, transforms_type=tt,
+                estimate_sensitivity_maps=True, use_seed=True, mask_split_ratio=ratios[0],
+                mask_split_acs_region=tuple(case["a"]), mask_split_keep_acs=bool(case["keep"]),
+                mask_split_type=S.MaskSplitterType(kind if kind != "gauss" else "gaussian"),
+                mask_split_half_direction=S.HalfSplitType(case.get("dir", "vertical")))
+            g = np.random.RandomState(case["perturb"])
+            k = (g.randn(*shape) + 1j * g.randn(*shape)).astype(np.complex64)
+            out = tr({"kspace": k, "filename": case["filename"][0], "slice_no": case["slice_no"][0]})
+            return {skey(k_): v for k_, v in out.items()}
+
+        a, b = run(TransformsType.SUPERVISED), run(TransformsType.SSL_SSDU)
+        i, t = b["input_sampling_mask"], b["target_sampling_mask"]
+        z = torch.zeros(1)
+        res = {"sup_keys": sorted(a.keys()), "ssl_keys": sorted(b.keys()), "sup_is_ssl": bool(a["is_ssl"]),
+               "ssl_is_ssl": bool(b["is_ssl"]), "mask_shape": list(i.shape), "orig_mask_shape": list(a["sampling_mask"].shape),
+               "union": bool(torch.equal((i | t).reshape(-1), a["sampling_mask"].reshape(-1))),
+               "inter_empty": bool(not (i & t).any()) if not case["keep"] else None,
+               "loss_k_is_target_restriction": bool(torch.equal(b["kspace"], torch.where(t, a["masked_kspace"], z))),
+               "input_k_is_input_restriction": bool(torch.equal(b["input_kspace"], torch.where(i, a["masked_kspace"], z))),
+               "target_is_recon_of_target_k": bool(torch.allclose(
+                   b["target"], root_sum_of_squares(ifft2(b["kspace"], dim=(1, 2)), dim=0), atol=1e-4))
+               if case["dims"] == 2 else None,
+               "input_cells": int(i.sum()), "target_cells": int(t.sum())}
+        return res
+
     def run_case(case):
         t0 = time.time()
         try:
-            res = run_once(case, int(case.get("perturb", 1)))
+            if case["level"] == "f32":
+                import math as _m
+                res = {"counts": [[int(_m.ceil(torch.tensor(S_) * (p / q))), int(torch.count_nonzero(torch.ones(S_)) * (p / q))]
+                                  for S_, p, q in case["pairs"]]}
+            elif case["level"] == "engine":
+                res = run_engine(case)
+            elif case["level"] == "fullpipe":
+                res = run_fullpipe(case)
+            else:
+                res = run_once(case, int(case.get("perturb", 1)))
         except Exception as e:  # noqa: BLE001 - canonicalised
             return {"ok": False, "err": type(e).__name__, "msg": str(e)[:300], "calls": [dict(c) for c in calls],
                     "log": list(RecRS.log)}
@@ -383,7 +540,7 @@ def _stream(seed: int, nrow: int, ncol: int, cx: int, cy: int, std: float, free:
     while count <= n:
         c = nxt()
         out.append(c)
-        if len(out) > STREAM_CAP:
+        if len(out) > PY_STREAM_CAP:
             return None
         if 0 <= c[0] < nrow and 0 <= c[1] < ncol and free[c[0] * ncol + c[1]] and c not in chosen:
             chosen.add(c)
@@ -391,6 +548,151 @@ def _stream(seed: int, nrow: int, ncol: int, cx: int, cy: int, std: float, free:
     for _ in range(tail):
         out.append(nxt())
     return out
+
+
+# ---- fast replay of the kernel's libc stream (C helper, compiled once into /verif/.build/ext; Python fallback) ----
+_C_SRC = r"""
+#include <stdlib.h>
+#include <math.h>
+#include <limits.h>
+static int trunc_i(double v) { return (v > -2147483648.0 && v < 2147483648.0) ? (int)v : INT_MIN; }
+/* Replays `gaussian_fill(n, nrow, ncol, cx, cy, std, free, zeros, seed)`: returns the number of candidates the loop
+   consumes (-1 if more than cap), writes the first occurrences of the candidates (+ `tail` further draws) to ox/oy. */
+long c11_stream(unsigned seed, int nrow, int ncol, int cx, int cy, double std, const unsigned char *free_, long n,
+                long cap, long tail, int *ox, int *oy, long ocap, long *nout)
+{
+    double sx = (nrow - 1) / std, sy = (ncol - 1) / std;
+    int wx = (int)(7.0 * sx) + 4, wy = (int)(7.0 * sy) + 4;
+    long bw = (long)nrow + 2L * wx, bh = (long)ncol + 2L * wy;
+    unsigned char *seen = calloc((size_t)(bw * bh), 1), *chosen = calloc((size_t)nrow * ncol, 1);
+    long count = 0, used = 0, out = 0, extra = 0;
+    if (!seen || !chosen) { free(seen); free(chosen); return -2; }
+    srand(seed);
+    while (count <= n || extra < tail) {
+        double u1 = (double)rand() / RAND_MAX;
+        double r = sqrt(-2 * log(u1));
+        double u2 = (double)rand() / RAND_MAX;
+        double theta = 2 * M_PI * u2;
+        int x = trunc_i(cx + r * cos(theta) * sx), y = trunc_i(cy + r * sin(theta) * sy);
+        int fresh = 1;
+        if (count <= n) {
+            used++;
+            if (used > cap) { free(seen); free(chosen); *nout = out; return -1; }
+        } else extra++;
+        if (x >= -wx && x < nrow + wx && y >= -wy && y < ncol + wy) {
+            long k = (long)(x + wx) * bh + (y + wy);
+            fresh = !seen[k];
+            seen[k] = 1;
+        }
+        if (fresh) {
+            if (out >= ocap) { free(seen); free(chosen); *nout = out; return -3; }
+            ox[out] = x; oy[out] = y; out++;
+        }
+        if (count <= n && x >= 0 && x < nrow && y >= 0 && y < ncol && free_[(long)x * ncol + y] && !chosen[(long)x * ncol + y]) {
+            chosen[(long)x * ncol + y] = 1;
+            count++;
+        }
+    }
+    free(seen); free(chosen);
+    *nout = out;
+    return used;
+}
+"""
+_CLIB = {}
+
+
+def _clib():
+    if "lib" not in _CLIB:
+        _CLIB["lib"] = None
+        try:
+            import hashlib
+
+            d = HARNESS.parent / ".build" / "ext" / ("c11_" + hashlib.sha256(_C_SRC.encode()).hexdigest()[:12])
+            so = d / "c11_stream.so"
+            if not so.exists():
+                d.mkdir(parents=True, exist_ok=True)
+                src = d / "c11_stream.c"
+                src.write_text(_C_SRC)
+                tmp = d / f"c11_stream.tmp{os.getpid()}.so"
+                r = subprocess.run(["gcc", "-O2", "-fPIC", "-shared", "-w", str(src), "-o", str(tmp), "-lm"],
+                                   capture_output=True, text=True)
+                if r.returncode == 0:
+                    os.replace(tmp, so)
+            if so.exists():
+                lib = ctypes.CDLL(str(so))
+                lib.c11_stream.restype = ctypes.c_long
+                lib.c11_stream.argtypes = [ctypes.c_uint, ctypes.c_int, ctypes.c_int, ctypes.c_int, ctypes.c_int, ctypes.c_double,
+                                           ctypes.c_char_p, ctypes.c_long, ctypes.c_long, ctypes.c_long,
+                                           ctypes.POINTER(ctypes.c_int), ctypes.POINTER(ctypes.c_int), ctypes.c_long,
+                                           ctypes.POINTER(ctypes.c_long)]
+                _CLIB["lib"] = lib
+        except Exception:  # noqa: BLE001 - fall back to the Python replay
+            _CLIB["lib"] = None
+    return _CLIB["lib"]
+
+
+def _stream_fast(seed, nrow, ncol, cx, cy, std, free, n, cap=STREAM_CAP, tail=3):
+    """-> (number of candidates the kernel consumes or None when > cap, first occurrences of the candidates)"""
+    lib = _clib()
+    if lib is None:
+        st = _stream(seed, nrow, ncol, cx, cy, std, free, n, tail)
+        if st is None:
+            return None, None
+        first, seen = [], set()
+        for c in st:
+            if c not in seen:
+                seen.add(c)
+                first.append(c)
+        return len(st) - tail, first
+    ocap = 64 * (nrow + 64) * (ncol + 64) // 8 + 4096
+    ox, oy = (ctypes.c_int * ocap)(), (ctypes.c_int * ocap)()
+    nout = ctypes.c_long(0)
+    used = lib.c11_stream(seed & 0xFFFFFFFF, nrow, ncol, cx, cy, float(std), bytes(free), n, cap, tail, ox, oy, ocap,
+                          ctypes.byref(nout))
+    if used < 0:
+        return None, None
+    first = [(ox[i], oy[i]) for i in range(nout.value)]
+    if used <= 3000 and _CLIB.get("xcheck", 0) < 25:
+        # self-check of the harness: the C replay equals the ctypes/Python replay
+        _CLIB["xcheck"] = _CLIB.get("xcheck", 0) + 1
+        st = _stream(seed, nrow, ncol, cx, cy, std, free, n, tail)
+        ref, seen = [], set()
+        for c in st or []:
+            if c not in seen:
+                seen.add(c)
+                ref.append(c)
+        if st is None or len(st) - tail != used or ref != first:
+            raise ToolFailure("C11: the C replay of the libc stream differs from the Python replay")
+    return used, first
+
+
+def _scaled_coords(res):
+    """float32 linspace values of the worker on one common integer scale (a power of two)"""
+    if "xs" not in res:
+        return [], []
+    D = max(d for _, d in res["xs"] + res["ys"])
+    return [n * (D // d) for n, d in res["xs"]], [n * (D // d) for n, d in res["ys"]]
+
+
+_STREAM_LEN: list[int] = []
+_DIAG_STATS = {"cases": 0, "differ": 0, "off_boundary": 0}
+
+
+def _diag_stats(case, res):
+    """how often float32 and exact diagonal sides differ, and whether only where the exact coordinates cancel"""
+    if "xs" not in res:
+        return
+    H, W = case["nrow"], case["ncol"]
+    sgn = 1 if case["dir"] == "diagonal_right" else -1
+    fx = [Fraction(n, d) for n, d in res["xs"]]
+    fy = [Fraction(n, d) for n, d in res["ys"]]
+    _DIAG_STATS["cases"] += 1
+    diff = [(i, j) for i in range(H) for j in range(W)
+            if (fx[i] + sgn * fy[j] <= 0) != (_coord(H, i) + sgn * _coord(W, j) <= 0)]
+    if diff:
+        _DIAG_STATS["differ"] += 1
+        if any(_coord(H, i) + sgn * _coord(W, j) != 0 for i, j in diff):
+            _DIAG_STATS["off_boundary"] += 1
 
 
 def _coord(n: int, i: int) -> Fraction:
@@ -514,8 +816,164 @@ def _region_class(case) -> str:
             "full" if a == [H, W] else "odd" if (a[0] % 2 or a[1] % 2) else "even")
 
 
+
+def _gen_engine_case(rng, kind: str, dims: int, level: str = "engine") -> dict:
+    """SSL branch of build_mri_transforms -> default_collate -> one training step of an SSL engine"""
+    H, W = rng.randint(6, 10), rng.randint(6, 11)
+    B, C = rng.choice([1, 2, 2, 3]), rng.choice([1, 2, 3])
+    Sl = rng.choice([2, 3]) if dims == 3 else 1
+    mtype = rng.choice(["line", "2d", "2d", "sparse", "full"])
+    keep = rng.random() < 0.35
+    masks, acss = [], []
+    for _ in range(B):
+        m = _gen_mask(rng, H, W, mtype)
+        if keep:
+            m, a = _gen_acs(rng, H, W, m, mtype)
+            m = [x | y for x, y in zip(m, a)]
+            acss.append(a)
+        masks.append(m)
+    n = C * Sl * H * W * 2
+    case = {"kind": kind, "level": level, "dims": dims, "engine": rng.choice(["ssl", "jssl"]), "nrow": H, "ncol": W, "B": B,
+            "C": C, "S": Sl, "mtype": mtype, "masks": masks, "acs": acss if keep else None, "keep": int(keep),
+            "a": rng.choice([[0, 0], [2, 2], [2, 4], [3, 3]]), "ratios": [rng.choice(RATIOS)], "use_seed": 1,
+            "perturb": rng.randrange(1, 10 ** 6), "filename": [_name(rng) for _ in range(B)],
+            "slice_no": [rng.randrange(0, 300) for _ in range(B)],
+            "kspace": [[rng.randint(1, 5) * rng.choice([-1, 1]) for _ in range(n)] for _ in range(B)],
+            "pred": [[rng.randint(10, 19) for _ in range(n)] for _ in range(B)]}
+    if kind == "half":
+        case["dir"], case["ratios"] = rng.choice(DIRS), [(1, 2)]
+    if level == "fullpipe":
+        case["nrow"], case["ncol"], case["B"] = rng.choice([10, 12, 13]), rng.choice([12, 15, 16]), 1
+        for k in ("masks", "acs", "kspace", "pred"):
+            case[k] = None
+        case["mtype"], case["keep"] = "line", 0
+    return case
+
+
+def _engine_spec(case, res, b):
+    """what the k-space loss must see for sample b, from the returned split masks (masked k-space m·k)"""
+    N = case["nrow"] * case["ncol"]
+    i, t = res["input"][b], res["target"][b]
+    m, k, p = case["masks"][b], case["kspace"][b], case["pred"][b]
+    out, ref = [], []
+    for x in range(len(k)):
+        c = (x // 2) % N
+        mk = k[x] * m[c]
+        out.append(0 if not t[c] else (mk if i[c] else p[x]))
+        ref.append(mk if t[c] else 0)
+    return out, ref
+
+
+def _check_engine(case, res):
+    H, W, B, C = case["nrow"], case["ncol"], case["B"], case["C"]
+    N = H * W
+    three = case["dims"] == 3
+    tag = "ssl-split-mask-rank-3d" if three else None
+    if not res["ok"]:
+        yield (f"ssl-pipeline-raises-{res['err']}", f"the SSL branch of build_mri_transforms raises {res['err']}: {res.get('msg', '')[:160]}")
+        return
+    need = {"input_kspace", "kspace", "input_sampling_mask", "target_sampling_mask", "is_ssl", "target"}
+    gone = {"masked_kspace", "sampling_mask", "acs_mask"}
+    keys = set(res["keys"])
+    if not need <= keys or keys & gone or not res["is_ssl"]:
+        yield ("ssl-pipeline-keys", f"keys after the SSL branch: {sorted(keys)} (need {sorted(need)}, without {sorted(gone)})")
+        return
+    for b in range(B):
+        m, k = case["masks"][b], case["kspace"][b]
+        i, t = res["input"][b], res["target"][b]
+        acs = case["acs"][b] if case["acs"] else [0] * N
+        if len(i) != N or [x | y for x, y in zip(i, t)] != [x | y for x, y in zip(m, acs)] or \
+                [x & y for x, y in zip(i, t)] != acs:
+            yield ("ssl-pipeline-partition", "split masks of the pipeline are not a partition of the sampling mask")
+            return
+        for name, mk, got in (("input_kspace", i, res["ink"][b]), ("kspace", t, res["tgk"][b])):
+            if got != [k[x] * m[(x // 2) % N] * mk[(x // 2) % N] for x in range(len(k))]:
+                yield ("ssl-pipeline-kspace-not-restricted", f"`{name}` is not the masked k-space restricted to its mask")
+    if res["mask_shape"][0] != res["orig_mask_shape"] or res["mask_shape"][1] != res["orig_mask_shape"]:
+        yield (tag or "ssl-split-mask-shape", f"split masks have shape {res['mask_shape'][0]}, the sampling mask {res['orig_mask_shape']}"
+               + (f"; engine step on the collated batch: {res.get('engine_err', 'ok')}" if not res.get("engine_ok") else ""))
+        if three:
+            return
+    if not res.get("engine_ok"):
+        yield (tag or "ssl-engine-step-raises", f"training step on the collated batch raises {res.get('engine_err')}")
+        return
+    for b in range(B):
+        out, ref = _engine_spec(case, res, b)
+        if res["loss_ref"][b] != ref:
+            yield (tag or "ssl-loss-reference", "the k-space loss reference is not the masked k-space restricted to the target mask")
+        if res["loss_out"][b] != out:
+            yield (tag or "ssl-loss-projection", "the projected prediction differs from: k on cells in both masks, the prediction on "
+                   "held-out target cells, 0 off the target mask")
+
+
+def _check_fullpipe(case, res):
+    three = case["dims"] == 3
+    if not res["ok"]:
+        yield (f"ssl-fullpipe-raises-{res['err']}", f"build_mri_transforms pipeline raises {res['err']}: {res.get('msg', '')[:160]}")
+        return
+    if res["sup_is_ssl"] or not res["ssl_is_ssl"] or "masked_kspace" not in res["sup_keys"] or "masked_kspace" in res["ssl_keys"] \
+            or "input_kspace" not in res["ssl_keys"] or "acs_mask" in res["ssl_keys"]:
+        yield ("ssl-pipeline-keys", f"supervised keys {res['sup_keys']}, SSL keys {res['ssl_keys']}")
+    for f, key in (("union", "ssl-pipeline-partition"), ("loss_k_is_target_restriction", "ssl-pipeline-kspace-not-restricted"),
+                   ("input_k_is_input_restriction", "ssl-pipeline-kspace-not-restricted"),
+                   ("target_is_recon_of_target_k", "ssl-pipeline-target-image"), ("inter_empty", "ssl-pipeline-partition")):
+        if res.get(f) is False:
+            yield (key, f"supervised vs SSL branch on the same raw sample: `{f}` does not hold")
+    if res["mask_shape"] != res["orig_mask_shape"]:
+        yield ("ssl-split-mask-rank-3d" if three else "ssl-split-mask-shape",
+               f"split masks have shape {res['mask_shape']}, the sampling mask {res['orig_mask_shape']}")
+
+
+def _gen_slow_case(rng, thorough: bool) -> dict:
+    """tightest feasible Gaussian requests: the cap binds (target = every free cell), far-from-centre cells included"""
+    big = rng.random() < 0.35
+    if thorough and big:
+        H, W = rng.choice([(64, 64), (96, 80), (64, 128), (128, 128)])
+    else:
+        H, W = rng.choice([(40, 40), (33, 40), (24, 31), (16, 16), (40, 12), (12, 37)])
+    mtype = rng.choice(["full", "full", "line", "2d"])
+    m = _gen_mask(rng, H, W, mtype)
+    for k in (0, W - 1, (H - 1) * W, H * W - 1):     # the corners are sampled
+        m[k] = 1
+    a = [4, 4] if H * W <= 4000 else [8, 8] if H * W <= 9000 else [12, 12]
+    return {"kind": "gauss", "level": "split", "slow": 1, "nrow": H, "ncol": W, "B": 1, "C": 1, "mtype": mtype, "masks": [m],
+            "acs": None, "keep": 0, "a": a, "ratios": [(999, 1000)], "use_seed": 1, "perturb": rng.randrange(1, 10 ** 6),
+            "twice": 0, "std": rng.choice([3.0, 3.0, 3.5] + ([4.0] if thorough else [])),
+            "seed": [ord(ch) for ch in _name(rng) + str(rng.randrange(40))]}
+
+
+SLOW_LIMIT = 10_000_000
+
+
+def _slow_report(ctx, seen):
+    """distribution of the number of candidates the real kernel's stream needs on the tightest requests"""
+    rows = []
+    for case, res in _RESULTS:
+        if not case.get("slow") or not res.get("ok") or len(res.get("calls", [])) != 1:
+            continue
+        k = res["calls"][0]
+        used, _ = _stream_fast(k["seed"], k["nrow"], k["ncol"], k["cx"], k["cy"], k["std"], _free(case, 0), k["n"])
+        rows.append((used, k["nrow"], k["ncol"], k["std"], k["n"] + 1, k["free"], res.get("time")))
+        if (used is None or used > SLOW_LIMIT) and "gaussian-split-slow" not in seen:
+            seen.add("gaussian-split-slow")
+            yield Violation("gaussian-split-slow",
+                            f"the kernel needs {'more than ' + str(STREAM_CAP) if used is None else used} candidates for "
+                            f"{k['n'] + 1} of {k['free']} free cells on {k['nrow']}x{k['ncol']} (std_scale {k['std']})",
+                            {"case": case, "observed": {"candidates": used, "calls": res["calls"], "time": res.get("time")}})
+    if rows:
+        us = sorted(u for u, *_ in rows if u is not None)
+        tight = sum(1 for r in rows if r[4] == r[5])
+        worst = max(rows, key=lambda r: (r[0] is None, r[0] or 0))
+        ctx.notes.append(
+            f"tightest Gaussian requests ({len(rows)} cases, {tight} with requested = #free): candidates consumed by the real "
+            f"kernel's libc stream min/median/max = {us[0]}/{us[len(us) // 2]}/{us[-1]}; worst {worst[1]}x{worst[2]} std_scale "
+            f"{worst[3]}: {worst[0]} candidates for {worst[4]} cells ({round((worst[0] or 0) / max(worst[4], 1), 1)} per cell, "
+            f"{worst[6]} s); limit for `gaussian-split-slow`: {SLOW_LIMIT}")
+
+
 def _bucket(case, res) -> str:
-    return f"{case['level']}/{case['kind']}{('-' + case['dir']) if case['kind'] == 'half' else ''}"
+    lvl = case["level"] + (f"{case['dims']}d-{case.get('engine', 'pipe')}" if "dims" in case else "")
+    return f"{lvl}/{case['kind']}{('-' + case['dir']) if case['kind'] == 'half' else ''}"
 
 
 def _histograms(ctx, case, res):
@@ -524,7 +982,8 @@ def _histograms(ctx, case, res):
     keys = [f"mask/{case['mtype']}", f"region/{_region_class(case)}", f"keep_acs/{case['keep']}", f"use_seed/{case['use_seed']}",
             f"batch/{case['B']}", f"rows/{'odd' if H % 2 else 'even'}-cols/{'odd' if W % 2 else 'even'}",
             f"size/{'6-12' if max(H, W) <= 13 else '13-24' if max(H, W) <= 24 else '25-40'}",
-            f"acs_mask/{'given' if case['acs'] else 'none'}", f"outcome/{'ok' if res.get('ok') else res.get('err')}"]
+            f"acs_mask/{'given' if case['acs'] else 'none'}", f"outcome/{'ok' if res.get('ok') else res.get('err')}",
+            f"data/{case.get('dims', 2)}d"]
     if case["kind"] != "half":
         keys += [f"ratio/{p}:{q}" for p, q in case["ratios"][:1]] + [f"ratios/{len(case['ratios'])}"]
     for k in keys:
@@ -534,6 +993,8 @@ def _histograms(ctx, case, res):
 def _nontrivial(case, res) -> bool:
     if not res.get("ok"):
         return False
+    if case["level"] == "fullpipe":
+        return res.get("input_cells", 0) > 0 and res.get("target_cells", 0) > 0
     nfree = min(sum(_free(case, b)) for b in range(case["B"]))
     both = all(sum(i) > 0 and sum(t) > 0 for i, t in zip(res["input"], res["target"]))
     stress = bool(case["keep"]) or (case["a"] != [0, 0]) or both
@@ -556,8 +1017,10 @@ def _protocol(case, res):
     H, W, B, C = case["nrow"], case["ncol"], case["B"], case["C"]
     keep = case["keep"]
     acs = case["acs"]
-    if level == "pipeline":
-        return None, None, "pipeline-level: oracle only"
+    if level == "pipeline" or level == "fullpipe":
+        return None, None, f"{level}-level: oracle only"
+    if level == "engine":
+        return None, None, "engine"
     if res.get("err") == "Timeout":
         return None, None, "timeout"
     # the recorded draws, per sample: every split starts with `rng.seed(seed)` (temp_seed)
@@ -581,10 +1044,10 @@ def _protocol(case, res):
         a0, a1 = case["a"]
         acs0 = acs[0] if (acs and keep) else []
         if kind == "half":
-            ln = "hsplit " + _grp([H, W, keep, a0, a1, DIRS.index(case["dir"])], case["masks"][0], acs0)
+            xs, ys = _scaled_coords(res)
+            _diag_stats(case, res)
+            ln = "hsplit " + _grp([H, W, keep, a0, a1, DIRS.index(case["dir"])], case["masks"][0], acs0, xs, ys)
             ans = ("ok " + _grp(res["input"][0], res["target"][0])) if res["ok"] else _err(res)
-            if case["dir"].startswith("diagonal") and res["ok"] and not res.get("diag_exact", False):
-                return None, None, "diag-float-boundary"
             return ln, ans, ""
         idx, p, q = ratio_of(0)
         if kind == "gauss":
@@ -595,9 +1058,10 @@ def _protocol(case, res):
             if len(calls) != 1:
                 return None, None, "kernel-not-called-once"
             k = calls[0]
-            st = _stream(k["seed"], k["nrow"], k["ncol"], k["cx"], k["cy"], k["std"], _free(case, 0), k["n"])
+            used, st = _stream_fast(k["seed"], k["nrow"], k["ncol"], k["cx"], k["cy"], k["std"], _free(case, 0), k["n"])
             if st is None:
                 return None, None, "stream-too-long"
+            _STREAM_LEN.append(used)
             ln = "gsplit " + _grp([H, W, keep, a0, a1, c, p, q], case["masks"][0], acs0, [x for x, _ in st], [y for _, y in st])
             return ln, "ok " + _grp(res["input"][0], res["target"][0], [k["n"], k["free"]]), ""
         # uniform
@@ -612,8 +1076,8 @@ def _protocol(case, res):
     # ---- forward
     a0, a1 = case["a"]
     kcode = {"gauss": 0, "uniform": 1, "half": 2}[kind]
-    if kind == "half" and case["dir"].startswith("diagonal") and res["ok"] and not res.get("diag_exact", False):
-        return None, None, "diag-float-boundary"
+    if kind == "half":
+        _diag_stats(case, res)
     groups = [[kcode, B, C, H, W, keep, a0, a1, DIRS.index(case.get("dir", "vertical")), case["use_seed"]]]
     for b in range(B):
         acsb = acs[b] if (acs and keep) else []
@@ -622,14 +1086,17 @@ def _protocol(case, res):
         idx, p, q = ratio_of(b)
         tup = (per[b]["seed"] or []) if b < len(per) else []
         d0, d1, c, seed = [], [], 0, 0
+        if kind == "half":
+            d0, d1 = _scaled_coords(res)
         if kind == "gauss":
             c = _count_ceil_f32(sum(_reduced(case, b)), p, q)
             if b < len(calls):
                 k = calls[b]
                 seed = k["seed"]
-                st = _stream(k["seed"], k["nrow"], k["ncol"], k["cx"], k["cy"], k["std"], _free(case, b), k["n"])
+                used, st = _stream_fast(k["seed"], k["nrow"], k["ncol"], k["cx"], k["cy"], k["std"], _free(case, b), k["n"])
                 if st is None:
                     return None, None, "stream-too-long"
+                _STREAM_LEN.append(used)
                 d0, d1 = [x for x, _ in st], [y for _, y in st]
         elif kind == "uniform":
             c = _count_floor_f32(sum(_free(case, b)), p, q)
@@ -653,6 +1120,9 @@ def _check(case, res):
     kind, level = case["kind"], case["level"]
     H, W, B, C = case["nrow"], case["ncol"], case["B"], case["C"]
     N = H * W
+    if level in ("engine", "fullpipe") and res.get("err") != "Timeout":
+        yield from (_check_engine if level == "engine" else _check_fullpipe)(case, res)
+        return
     if res.get("err") == "Timeout":
         yield ("gaussian-split-hang" if kind == "gauss" else f"{kind}-split-hang",
                f"{kind} split did not return within {WATCHDOG_S} s")
@@ -800,8 +1270,26 @@ def _malformed_cases(rng):
 def correspondence(ctx: Ctx):
     rng = ctx.rng
     del _RESULTS[:]
+    _DIAG_STATS.update(cases=0, differ=0, off_boundary=0)
     cases = _fixed_cases() + _malformed_cases(rng) + [_gen_case(rng, kind, level) for kind, level in _plan(ctx)]
+    cases += [_gen_slow_case(rng, ctx.thorough) for _ in range(ctx.budget(10, 80))]
+    for kind in ("gauss", "uniform", "half"):
+        cases += [_gen_engine_case(rng, kind, 2) for _ in range(ctx.budget(8, 80))]
+        cases += [_gen_engine_case(rng, kind, 3) for _ in range(ctx.budget(3, 30))]
     excluded: dict[str, int] = {}
+    # the float32 product S·ρ: torch (through the worker) vs the model's `countCeilF32` / `countFloorF32`
+    pairs = [(S_, p, q) for p, q in RATIOS + [(999, 1000), (1, 7), (5, 9)]
+             for S_ in (range(0, 1601) if ctx.thorough else sorted({rng.randrange(0, 1601) for _ in range(12)} | {0, 1, 50, 100, 1600}))]
+    f32 = _W.call({"level": "f32", "kind": "f32", "pairs": pairs}, timeout=120.0)
+    if f32.get("ok"):
+        for (S_, p, q), (c_, f_) in zip(pairs, f32["counts"]):
+            exact = (-((-S_ * p) // q), (S_ * p) // q)
+            yield {"line": "f32count " + _grp([S_, p, q]),
+                   "impl": (lambda a="ok " + _grp([c_, f_, exact[0], exact[1]]): a),
+                   "nontrivial": (c_, f_) != exact, "bucket": "f32count/" + ("rounded-off" if (c_, f_) != exact else "exact"),
+                   "key": ("f32", S_, p, q)}
+            if (c_, f_) != (_count_ceil_f32(S_, p, q), _count_floor_f32(S_, p, q)):
+                raise ToolFailure(f"C11: the harness emulation of the float32 product differs from torch at {(S_, p, q)}")
     try:
         for case in cases:
             res = _W.call(case)
@@ -810,6 +1298,16 @@ def correspondence(ctx: Ctx):
                 continue
             _RESULTS.append((case, res))
             _histograms(ctx, case, res)
+            if case["level"] == "engine" and res.get("ok") and res.get("engine_ok") and case["dims"] == 2:
+                # the training step of the real engine against the model's `sslOutput`, sample by sample
+                N = case["nrow"] * case["ncol"]
+                for b in range(min(case["B"], len(res["loss_out"]))):
+                    mk = [case["kspace"][b][x] * case["masks"][b][(x // 2) % N] for x in range(len(case["kspace"][b]))]
+                    yield {"line": "ssl_out " + _grp([N], res["input"][b], res["target"][b], mk, case["pred"][b]),
+                           "impl": (lambda a="ok " + _grp(res["loss_out"][b], res["loss_ref"][b]): a),
+                           "nontrivial": sum(res["target"][b]) > 0 and sum(res["input"][b]) > 0,
+                           "bucket": _bucket(case, res), "key": json.dumps([case, b], sort_keys=True)}
+                continue
             ln, ans, why = _protocol(case, res)
             if ln is None:
                 excluded[why] = excluded.get(why, 0) + 1
@@ -830,6 +1328,10 @@ def correspondence(ctx: Ctx):
             ctx.notes.append(f"cases excluded from the differential comparison (oracle still applies): {excluded}")
         if _W.ext:
             ctx.notes.append(f"kernels served as {_W.ext}")
+        if _DIAG_STATS["cases"]:
+            ctx.notes.append(f"diagonal half splits: {_DIAG_STATS['cases']} compared on the float32 linspace values; in "
+                             f"{_DIAG_STATS['differ']} the float32 and exact-fraction sides differ, in {_DIAG_STATS['off_boundary']} "
+                             "of them on a cell whose exact coordinates do not cancel")
 
 
 def oracle(ctx: Ctx, deep: bool = False):
@@ -840,6 +1342,7 @@ def oracle(ctx: Ctx, deep: bool = False):
         # (a) everything the correspondence phase ran
         for case, res in _RESULTS:
             yield from _violations(case, res, seen)
+        yield from _slow_report(ctx, seen)
         wraps = sum(1 for c, _ in _RESULTS if not c["keep"] and (_wraps(c["nrow"], c["a"][0]) or _wraps(c["ncol"], c["a"][1])))
         if wraps:
             ctx.notes.append(f"{wraps} cases with acs_region//2 > centre: the protected slice wraps around (Python negative "
@@ -855,6 +1358,9 @@ def oracle(ctx: Ctx, deep: bool = False):
         # (b) the pipeline stage as build_mri_transforms builds it, and more split / forward cases (use_seed off included)
         extra = []
         for kind in ("gauss", "uniform", "half"):
+            for dims in (2, 3):
+                for _ in range(ctx.budget(2, 20)):
+                    extra.append(_gen_engine_case(rng, kind, dims, level="fullpipe"))
             for _ in range(ctx.budget(6, 60) * (4 if deep else 1)):
                 extra.append(_gen_case(rng, kind, "pipeline"))
             for _ in range(ctx.budget(60, 700) * (4 if deep else 1)):
@@ -878,7 +1384,7 @@ def oracle(ctx: Ctx, deep: bool = False):
             _histograms(ctx, case, res)
             ctx.count(json.dumps(case, sort_keys=True), _nontrivial(case, res), bucket="oracle/" + _bucket(case, res),
                       sample={"case": {k: case[k] for k in ("kind", "level", "nrow", "ncol", "a", "keep", "ratios")},
-                              "ok": res.get("ok"), "target_cells": [sum(t) for t in res.get("target", [])]})
+                              "ok": res.get("ok"), "target_cells": [sum(t) for t in res.get("target", [])] or res.get("target_cells")})
             yield from _violations(case, res, seen)
     finally:
         _W.close()
